@@ -608,15 +608,15 @@ Section ImplicitFacts.
     split; [reflexivity|]. repeat split; intros k; rewrite get0_scale; cbn [T RNum]; field; exact Hd.
   Qed.
 
-  Theorem implicit_gen_inv fixed s lo hi eps s' r :
-    implicit_gen RNum F fixed s lo hi eps = Ok (s', r) ->
+  Theorem implicit_real_inv s lo hi eps s' r :
+    implicit_real RNum F s lo hi eps = Ok (s', r) ->
     exists xk d oy,
-      nr_get_root RNum F fixed s lo hi eps = Ok (s', xk, d) /\
+      nr_get_root RNum F s lo hi eps = Ok (s', xk, d) /\
       F (mk_constant RNum xk None) = Ok (@OpdU RNum oy) /\ d <> 0 /\
       ux r = xk /\ scaled_by d oy r.
   Proof.
-    intros H. unfold implicit_gen in H.
-    destruct (nr_get_root RNum F fixed s lo hi eps) as [[[s1 xk] d]|] eqn:E; [|discriminate]. cbn [bind] in H.
+    intros H. unfold implicit_real in H.
+    destruct (nr_get_root RNum F s lo hi eps) as [[[s1 xk] d]|] eqn:E; [|discriminate]. cbn [bind] in H.
     destruct (finish_implicit RNum F xk d) as [o|] eqn:Ef; [|discriminate]. cbn [bind] in H. injection H as <- <-.
     unfold finish_implicit in Ef.
     destruct (F (mk_constant RNum xk None)) as [[oy|v]|] eqn:EF; [| |discriminate]; cbn [bind] in Ef.
@@ -629,19 +629,19 @@ Section ImplicitFacts.
   Qed.
 
   (* RuntimeError: empty search range, and no sign change between the bracket ends *)
-  Theorem empty_range_raises fixed s lo hi eps :
-    hi <= lo -> implicit_gen RNum F fixed s lo hi eps = Err RuntimeError.
+  Theorem empty_range_raises s lo hi eps :
+    hi <= lo -> implicit_real RNum F s lo hi eps = Err RuntimeError.
   Proof.
-    intros H. unfold implicit_gen, nr_get_root, nr_get_root_n. rn. rewrite (proj2 (Rleb_true _ _) H). reflexivity.
+    intros H. unfold implicit_real, nr_get_root, nr_get_root_n. rn. rewrite (proj2 (Rleb_true _ _) H). reflexivity.
   Qed.
 
-  Theorem no_sign_change_raises fixed s lo hi eps s1 x1 o1 s2 x2 r2 :
+  Theorem no_sign_change_raises s lo hi eps s1 x1 o1 s2 x2 r2 :
     lo < hi ->
     probe RNum F s lo = Ok (s1, x1, @OpdU RNum o1) -> probe RNum F s1 hi = Ok (s2, x2, r2) ->
     eps <= Rabs (ux o1) -> eps <= Rabs (val_of RNum r2) -> 0 <= ux o1 * val_of RNum r2 ->
-    implicit_gen RNum F fixed s lo hi eps = Err RuntimeError.
+    implicit_real RNum F s lo hi eps = Err RuntimeError.
   Proof.
-    intros Hr P1 P2 E1 E2 Hs. unfold implicit_gen, nr_get_root, nr_get_root_n. rn.
+    intros Hr P1 P2 E1 E2 Hs. unfold implicit_real, nr_get_root, nr_get_root_n. rn.
     rewrite (proj2 (Rleb_false hi lo)) by lra. rewrite P1. cbn [bind val_of T RNum] in *.
     rewrite (proj2 (Rltb_false (Rabs (ux o1)) eps)) by lra. rewrite P2. cbn [bind T RNum] in *.
     rewrite (proj2 (Rltb_false (Rabs (val_of RNum r2)) eps)) by lra.
@@ -673,14 +673,10 @@ Section ImplicitFacts.
       destruct (ltb RNum (val_of RNum r1) (zero RNum)); eapply IH; eauto.
   Qed.
 
-  (* with the repair (return x_min / x_max at a bracket end) the invariant holds for every
-     successful search; as the code stands it holds unless the root is found at an end, where
-     the FUNCTION value (smaller than epsilon in magnitude) is returned as the root *)
-  Lemma nr_get_root_n_probed fuel fixed s lo hi eps s' xk d :
-    nr_get_root_n RNum F fuel fixed s lo hi eps = Ok (s', xk, d) ->
-    probed xk d \/
-    (fixed = false /\ exists xe s0 s1 x o, (xe = lo \/ xe = hi) /\ probe RNum F s0 xe = Ok (s1, x, @OpdU RNum o) /\
-                      Rabs (ux o) < eps /\ xk = ux o /\ sensitivity RNum s1 o x = Ok d).
+  (* the invariant holds for EVERY successful search, the bracket ends included (before the repair of
+     finding C20-implicit-end the function value was returned there, and this theorem was false) *)
+  Lemma nr_get_root_n_probed fuel s lo hi eps s' xk d :
+    nr_get_root_n RNum F fuel s lo hi eps = Ok (s', xk, d) -> probed xk d.
   Proof.
     intros H. unfold nr_get_root_n in H.
     destruct (leb RNum hi lo); [discriminate|].
@@ -688,30 +684,32 @@ Section ImplicitFacts.
     destruct r1 as [o1|v1]; [|discriminate]. cbn [val_of] in H.
     destruct (ltb RNum (nabs RNum (ux o1)) eps) eqn:L1.
     { destruct (sens_of RNum s1 (@OpdU RNum o1) x1) as [d1|] eqn:S1; [|discriminate]. cbn [bind] in H.
-      injection H as <- <- <-. destruct fixed.
-      - left. exists s, s1, x1, (@OpdU RNum o1). auto.
-      - right. split; [reflexivity|]. exists lo, s, s1, x1, o1. rn. apply Rltb_true in L1. auto. }
+      injection H as <- <- <-. exists s, s1, x1, (@OpdU RNum o1). auto. }
     destruct (probe RNum F s1 hi) as [[[s2 x2] r2]|] eqn:P2; [|discriminate]. cbn [bind] in H.
     destruct (ltb RNum (nabs RNum (val_of RNum r2)) eps) eqn:L2.
     { destruct (sens_of RNum s2 r2 x2) as [d2|] eqn:S2; [|discriminate]. cbn [bind] in H.
-      injection H as <- <- <-. destruct fixed.
-      - left. exists s1, s2, x2, r2. auto.
-      - right. split; [reflexivity|]. destruct r2 as [o2|v2]; [|discriminate S2].
-        exists hi, s1, s2, x2, o2. rn. apply Rltb_true in L2. cbn [val_of] in *. auto. }
+      injection H as <- <- <-. exists s1, s2, x2, r2. auto. }
     destruct (leb RNum (zero RNum) (mul RNum (ux o1) (val_of RNum r2))); [discriminate|].
     match type of H with context [div RNum ?a ?b] => destruct (div RNum a b) as [xm|]; [|discriminate] end.
     cbn [bind] in H.
     destruct (probe RNum F s2 xm) as [[[s3 x3] r3]|] eqn:P3; [|discriminate]. cbn [bind] in H.
     destruct (sens_of RNum s3 r3 x3) as [d3|] eqn:S3; [|discriminate]. cbn [bind] in H.
-    left. eapply nr_loop_probed; [|exact H]. exists s2, s3, x3, r3. auto.
+    eapply nr_loop_probed; [|exact H]. exists s2, s3, x3, r3. auto.
   Qed.
 
-  Theorem nr_get_root_probed fixed s lo hi eps s' xk d :
-    nr_get_root RNum F fixed s lo hi eps = Ok (s', xk, d) ->
-    probed xk d \/
-    (fixed = false /\ exists xe s0 s1 x o, (xe = lo \/ xe = hi) /\ probe RNum F s0 xe = Ok (s1, x, @OpdU RNum o) /\
-                      Rabs (ux o) < eps /\ xk = ux o /\ sensitivity RNum s1 o x = Ok d).
-  Proof. exact (nr_get_root_n_probed 100 fixed s lo hi eps s' xk d). Qed.
+  Theorem nr_get_root_probed s lo hi eps s' xk d :
+    nr_get_root RNum F s lo hi eps = Ok (s', xk, d) -> probed xk d.
+  Proof. exact (nr_get_root_n_probed 100 s lo hi eps s' xk d). Qed.
+
+  (* hence: what implicit returns is xk with the components of fn(constant(xk)) scaled by -1/d where d is the
+     sensitivity of fn to a probe placed at xk itself *)
+  Theorem implicit_real_probed s lo hi eps s' r :
+    implicit_real RNum F s lo hi eps = Ok (s', r) ->
+    exists d oy, probed (ux r) d /\ F (mk_constant RNum (ux r) None) = Ok (@OpdU RNum oy) /\ d <> 0 /\ scaled_by d oy r.
+  Proof.
+    intros H. destruct (implicit_real_inv s lo hi eps s' r H) as (xk & d & oy & Hn & HF & Hd & Hx & Hs).
+    exists d, oy. rewrite Hx. split; [eapply nr_get_root_probed; eassumption|]. split; [exact HF|]. split; [exact Hd|exact Hs].
+  Qed.
 End ImplicitFacts.
 
 (* ---------- a root at a bracket end ---------- *)
@@ -726,28 +724,53 @@ Ltac decide_R :=
 Section EndLemma.
   Variable F : ureal -> res (@operand RNum).
 
-  (* as the code stands ([fixed] = false) the value returned for a root found at the lower end is
-     fn(x_min).x, not x_min; with the two-name repair it is x_min *)
-  Lemma root_at_lower_end fixed s lo hi eps s1 x1 o1 d :
+  (* a root found at a bracket end is returned as that end, with the derivative taken there *)
+  Lemma root_at_lower_end s lo hi eps s1 x1 o1 d :
     lo < hi -> probe RNum F s lo = Ok (s1, x1, @OpdU RNum o1) -> Rabs (ux o1) < eps ->
     sensitivity RNum s1 o1 x1 = Ok d ->
-    nr_get_root RNum F fixed s lo hi eps = Ok (s1, (if fixed then lo else ux o1), d).
+    nr_get_root RNum F s lo hi eps = Ok (s1, lo, d).
   Proof.
     intros Hr P Hf Hs. unfold nr_get_root, nr_get_root_n. rn.
     rewrite (proj2 (Rleb_false hi lo)) by lra. rewrite P. cbn [bind val_of T RNum] in *.
     rewrite (proj2 (Rltb_true (Rabs (ux o1)) eps)) by exact Hf. cbn [sens_of]. rewrite Hs. reflexivity.
   Qed.
 
-  Lemma root_at_upper_end fixed s lo hi eps s1 x1 o1 s2 x2 o2 d :
+  Lemma root_at_upper_end s lo hi eps s1 x1 o1 s2 x2 o2 d :
     lo < hi -> probe RNum F s lo = Ok (s1, x1, @OpdU RNum o1) -> eps <= Rabs (ux o1) ->
     probe RNum F s1 hi = Ok (s2, x2, @OpdU RNum o2) -> Rabs (ux o2) < eps ->
     sensitivity RNum s2 o2 x2 = Ok d ->
-    nr_get_root RNum F fixed s lo hi eps = Ok (s2, (if fixed then hi else ux o2), d).
+    nr_get_root RNum F s lo hi eps = Ok (s2, hi, d).
   Proof.
     intros Hr P Hf P2 Hf2 Hs. unfold nr_get_root, nr_get_root_n. rn.
     rewrite (proj2 (Rleb_false hi lo)) by lra. rewrite P. cbn [bind val_of T RNum] in *.
     rewrite (proj2 (Rltb_false (Rabs (ux o1)) eps)) by lra. rewrite P2. cbn [bind val_of T RNum] in *.
     rewrite (proj2 (Rltb_true (Rabs (ux o2)) eps)) by exact Hf2. cbn [sens_of]. rewrite Hs. reflexivity.
+  Qed.
+
+  (* the whole call: a root at the lower / upper end of the bracket is what implicit returns *)
+  Theorem implicit_root_at_lower_end s lo hi eps s1 x1 o1 d oy :
+    lo < hi -> probe RNum F s lo = Ok (s1, x1, @OpdU RNum o1) -> Rabs (ux o1) < eps ->
+    sensitivity RNum s1 o1 x1 = Ok d -> d <> 0 ->
+    F (mk_constant RNum lo None) = Ok (@OpdU RNum oy) ->
+    exists r, implicit_real RNum F s lo hi eps = Ok (s1, r) /\ ux r = lo /\ scaled_by d oy r.
+  Proof.
+    intros Hr P Hf Hs Hd HF. unfold implicit_real.
+    rewrite (root_at_lower_end s lo hi eps s1 x1 o1 d Hr P Hf Hs). cbn [bind].
+    destruct (finish_implicit_spec F lo d oy HF Hd) as (r & E & Hx & Hsc). rewrite E. cbn [bind].
+    exists r. auto.
+  Qed.
+
+  Theorem implicit_root_at_upper_end s lo hi eps s1 x1 o1 s2 x2 o2 d oy :
+    lo < hi -> probe RNum F s lo = Ok (s1, x1, @OpdU RNum o1) -> eps <= Rabs (ux o1) ->
+    probe RNum F s1 hi = Ok (s2, x2, @OpdU RNum o2) -> Rabs (ux o2) < eps ->
+    sensitivity RNum s2 o2 x2 = Ok d -> d <> 0 ->
+    F (mk_constant RNum hi None) = Ok (@OpdU RNum oy) ->
+    exists r, implicit_real RNum F s lo hi eps = Ok (s2, r) /\ ux r = hi /\ scaled_by d oy r.
+  Proof.
+    intros Hr P Hf P2 Hf2 Hs Hd HF. unfold implicit_real.
+    rewrite (root_at_upper_end s lo hi eps s1 x1 o1 s2 x2 o2 d Hr P Hf P2 Hf2 Hs). cbn [bind].
+    destruct (finish_implicit_spec F hi d oy HF Hd) as (r & E & Hx & Hsc). rewrite E. cbn [bind].
+    exists r. auto.
   Qed.
 End EndLemma.
 
@@ -773,41 +796,19 @@ Proof.
   cbn. decide_R. reflexivity.
 Qed.
 
-Theorem implicit_end_refuted :
-  exists (e : expr RNum) (s : state) (lo hi eps : R) s' r,
-    let F := fn_of_expr RNum [] e in
-    lo < hi /\ 0 < eps /\
-    (exists y0, F (mk_constant RNum lo None) = Ok (@OpdU RNum y0) /\ ux y0 = 0) /\
-    implicit_real RNum F s lo hi eps = Ok (s', r) /\
-    ux r <> lo /\
-    (exists y, F (mk_constant RNum (ux r) None) = Ok (@OpdU RNum y) /\ ux y <> 0).
-Proof.
-  destruct probe_lo_w as (o1 & P & Hv & Hs).
-  assert (Hd : 1 * 1 * 1 / 1 <> 0) by lra.
-  destruct (finish_implicit_spec Fm1 (ux o1) (1 * 1 * 1 / 1) _ (Fm1_spec _) Hd) as (r & Hr & Hx & _).
-  exists e_m1, st0, 1, 3, (/ 1000), st1, r. cbv zeta. fold Fm1.
-  split; [lra|]. split; [lra|].
-  split; [eexists; split; [apply Fm1_spec|]; unfold mk_constant; cbn [ux T RNum]; lra|].
-  split.
-  - unfold implicit_real, implicit_gen.
-    rewrite (root_at_lower_end Fm1 false st0 1 3 (/ 1000) st1 x1_w o1 _ ltac:(lra) P) by
-        (try exact Hs; rewrite Hv; replace (1 - 1) with 0 by ring; rewrite Rabs_R0; lra).
-    cbn [bind]. rewrite Hr. reflexivity.
-  - split.
-    + cbn [T RNum] in *. rewrite Hx, Hv. lra.
-    + eexists; split; [apply Fm1_spec|]. unfold mk_constant. cbn [ux T RNum] in *. rewrite Hx, Hv. lra.
-Qed.
-
-(* the same call with the two-name repair returns the root *)
-Theorem implicit_end_repaired_witness :
-  exists s' r, implicit_gen RNum Fm1 true st0 1 3 (/ 1000) = Ok (s', r) /\ ux r = 1.
+(* the former counterexample (finding C20-implicit-end): fn = lambda v: v - 1.0 on [1, 3] has its root at
+   x_min = 1; implicit now returns it, and what it returns IS a root of fn *)
+Theorem implicit_end_witness :
+  exists s' r, implicit_real RNum Fm1 st0 1 3 (/ 1000) = Ok (s', r) /\ ux r = 1 /\
+    (exists y, Fm1 (mk_constant RNum (ux r) None) = Ok (@OpdU RNum y) /\ ux y = 0).
 Proof.
   destruct probe_lo_w as (o1 & P & Hv & Hs).
   assert (Hd : 1 * 1 * 1 / 1 <> 0) by lra.
   destruct (finish_implicit_spec Fm1 1 (1 * 1 * 1 / 1) _ (Fm1_spec _) Hd) as (r & Hr & Hx & _).
-  exists st1, r. split; [|exact Hx].
-  unfold implicit_gen.
-  rewrite (root_at_lower_end Fm1 true st0 1 3 (/ 1000) st1 x1_w o1 _ ltac:(lra) P) by
-      (try exact Hs; rewrite Hv; replace (1 - 1) with 0 by ring; rewrite Rabs_R0; lra).
-  cbn [bind]. rewrite Hr. reflexivity.
+  exists st1, r. split; [|split; [exact Hx|]].
+  - unfold implicit_real.
+    rewrite (root_at_lower_end Fm1 st0 1 3 (/ 1000) st1 x1_w o1 _ ltac:(lra) P) by
+        (try exact Hs; rewrite Hv; replace (1 - 1) with 0 by ring; rewrite Rabs_R0; lra).
+    cbn [bind]. rewrite Hr. reflexivity.
+  - eexists; split; [apply Fm1_spec|]. unfold mk_constant. cbn [ux T RNum] in *. rewrite Hx. lra.
 Qed.
